@@ -22,7 +22,7 @@ type c19alt struct {
 }
 
 func checkC19(p *Prog, rp *Report) {
-	rp.Explanation = "OrderDSCForBuild is interpreted abstractly on four sources (lib: libfoo1, libfoo-dev; tool; app; extra) whose build dependencies are placed, in turn, in each of Build-Depends, Build-Depends-Arch and Build-Depends-Indep, with alternatives that are substvars, not admitted on the build architecture, or unknown packages; the sorter is an oracle recording AddNode/AddEdge/Sort. C19-FIELDS: each of the three fields yields its edges, through the first admitted non-substvar alternative per relation (C06 semantics, interpreted, not mocked). C19-EDGE: edges run provider -> dependent, one node per input added before any edge, both dependents of one provider get their edge. C19-ERR: errors of AddEdge and Sort are returned with no order. C19-PERM: the result is the values of the nodes Sort returned, in that order. C19-TRIM: DSC.Binaries is a trimmed comma list (C10-TAGS instance). C19-DET: no range over a map in the function."
+	rp.Explanation = "OrderDSCForBuild is interpreted abstractly on eight sources (lib: libfoo1, libfoo-dev; tool; app; extra; gtk, gtk-doc, doc-tools, tools: hyphenated names whose concatenations coincide) whose build dependencies are placed, in turn, in each of Build-Depends, Build-Depends-Arch and Build-Depends-Indep, with alternatives that are substvars, not admitted on the build architecture, or unknown packages; the sorter is an oracle recording AddNode/AddEdge/Sort. C19-FIELDS: each of the three fields yields its edges, through the first admitted non-substvar alternative per relation (C06 semantics, interpreted, not mocked). C19-EDGE: edges run provider -> dependent, one node per input added before any edge, both dependents of one provider get their edge. C19-ERR: errors of AddEdge and Sort are returned with no order. C19-PERM: the result is the values of the nodes Sort returned, in that order. C19-TRIM: DSC.Binaries is a trimmed comma list (C10-TAGS instance). C19-DET: no range over a map in the function."
 	rp.NotDecided = "that pault.ag/go/topsort computes a correct topological order and detects cycles (60 lines, read: Sort walks an ordered slice; AddEdge(from,to) emits from before to)."
 	rp.Trusted = []string{"go/types, go/ssa", "pault.ag/go/topsort v0.1.1: AddEdge(from, to) orders from before to; Sort is deterministic", "C06 (selection of alternatives)"}
 
@@ -152,9 +152,14 @@ func checkC19(p *Prog, rp *Report) {
 			dsc("tool", strs("tool"), toolDeps),
 			dsc("app", strs("app"), appDeps),
 			dsc("extra", strs("extra-bin"), nil),
+			// hyphenated names whose concatenations coincide: gtk + doc-tools / gtk-doc + tools
+			dsc("gtk", strs("gtk"), nil),
+			dsc("gtk-doc", strs("gtk-doc"), nil),
+			dsc("doc-tools", strs("doc-tools"), [][]c19alt{{{name: "gtk"}}}),
+			dsc("tools", strs("tools-bin"), [][]c19alt{{{name: "gtk-doc"}}}),
 		}}
-		aid := st.alloc(types.NewArray(dscT, 4), arr)
-		st.push(fn, []Val{SliceV{Obj: aid, Len_: 4, Cap: 4}, mkArch("amd64")}, nil)
+		aid := st.alloc(types.NewArray(dscT, 8), arr)
+		st.push(fn, []Val{SliceV{Obj: aid, Len_: 8, Cap: 8}, mkArch("amd64")}, nil)
 		outs := m.Run(st)
 		var res []outcome
 		for _, o := range outs {
@@ -183,7 +188,7 @@ func checkC19(p *Prog, rp *Report) {
 		}
 		return res, ""
 	}
-	wantEdges := []string{"edge:lib->app", "edge:lib->tool"}
+	wantEdges := []string{"edge:gtk->doc-tools", "edge:gtk-doc->tools", "edge:lib->app", "edge:lib->tool"}
 	undecided := ""
 	var edgeProblems, permProblems []string
 	for _, f := range []struct{ goName, wire string }{{"BuildDepends", "Build-Depends"}, {"BuildDependsArch", "Build-Depends-Arch"}, {"BuildDependsIndep", "Build-Depends-Indep"}} {
@@ -243,7 +248,7 @@ func checkC19(p *Prog, rp *Report) {
 			}
 			fields.bad("control.OrderDSCForBuild:"+f.wire, pos, fmt.Sprintf("with the dependencies in %s: missing edges %v, unexpected edges %v (provider->dependent; app needs '${subst} | libfoo-dev', 'tool [!i386 !amd64] | missing-pkg', 'libfoo1 [sparc i386]', 'libfoo-dev | extra-bin', 'extra-bin [!amd64]'; tool needs 'libfoo1 [amd64 sparc]'; built for amd64)", f.wire, miss, extra), nil)
 		} else {
-			fields.ok("control.OrderDSCForBuild:"+f.wire, pos, "edges lib->app, lib->tool and no others (substvar skipped, negated and positive arch lists honoured, first admitted alternative only)")
+			fields.ok("control.OrderDSCForBuild:"+f.wire, pos, "edges lib->app, lib->tool, gtk->doc-tools, gtk-doc->tools and no others (substvar skipped, negated and positive arch lists honoured, first admitted alternative only, hyphenated names kept apart)")
 		}
 		nodes := 0
 		for _, e := range o.effects {
@@ -251,16 +256,16 @@ func checkC19(p *Prog, rp *Report) {
 				nodes++
 			}
 		}
-		if nodes != 4 {
-			edgeProblems = append(edgeProblems, fmt.Sprintf("%d nodes added for 4 sources", nodes))
+		if nodes != 8 {
+			edgeProblems = append(edgeProblems, fmt.Sprintf("%d nodes added for 8 sources", nodes))
 		}
 		if firstEdge >= 0 && lastNode > firstEdge {
 			edgeProblems = append(edgeProblems, "an edge is added before every source has its node")
 		}
 		if !o.errNil {
 			permProblems = append(permProblems, "error on an acyclic input")
-		} else if strings.Join(o.result, ",") != "extra,app,tool,lib" {
-			permProblems = append(permProblems, fmt.Sprintf("Sort returned extra,app,tool,lib but the result is %v", o.result))
+		} else if strings.Join(o.result, ",") != "tools,doc-tools,gtk-doc,gtk,extra,app,tool,lib" {
+			permProblems = append(permProblems, fmt.Sprintf("Sort returned tools,doc-tools,gtk-doc,gtk,extra,app,tool,lib but the result is %v", o.result))
 		}
 	}
 	if undecided == "" {
